@@ -390,6 +390,7 @@ func (s *Sched) pick(run []*Task, prev *Task) *Task {
 // Run executes all registered tasks to completion under the scheduler and
 // returns when every task is finished, or on deadlock / step budget exhaustion
 // (the remaining goroutines are abandoned, parked forever).
+//
 //go:norace
 func (s *Sched) Run() {
 	n := len(s.tasks)
